@@ -1,6 +1,6 @@
 (* pqref commands of the dataset models (C19, C18, C07, C09). *)
 From Coq Require Import NArith ZArith List String Bool.
-From Pq Require Import Base.Bytes Impl.KV Dataset.FS Dataset.FsPaths Dataset.Crash Dataset.Append Dataset.Ops Extract.Sx.
+From Pq Require Import Base.Bytes Impl.KV Dataset.FS Dataset.FsPaths Dataset.Crash Dataset.Append Dataset.Ops Dataset.CatRead Extract.Sx.
 Import ListNotations.
 Open Scope string_scope.
 
@@ -99,7 +99,24 @@ Definition h_append_trace (a : list sx) : sx :=
   | _ => err "arity"
   end.
 
+(* (read_cat (label ...) (((dict-label ...)? (code ...)) ...)) : codes are integers, -1 = NULL; a chunk without
+   dictionary page has () as first component, one with a dictionary ((label ...)) *)
+Definition as_code (s : sx) : option (option nat) :=
+  match s with SZ z => Some (if (z <? 0)%Z then None else Some (Z.to_nat z)) | _ => None end.
+Definition sx_cell (c : cell) : sx :=
+  match c with CNull => SL [] | CLab l => SL [sN l] | CBad k => SL [S_ "bad"; snat k] end.
+Definition h_read_cat (a : list sx) : sx :=
+  match a with
+  | [init; chunks] =>
+    match as_list_of as_N init,
+          as_list_of (as_pair (as_opt (as_list_of as_N)) (as_list_of as_code)) chunks with
+    | Some init, Some chunks => slist sx_cell (read_cat init chunks)
+    | _, _ => err "args"
+    end
+  | _ => err "arity"
+  end.
+
 Definition table : list (string * handler) :=
   [("safe_trace", h_safe_trace); ("no_write", h_no_write); ("fs_run", h_fs_run);
    ("append_seq", h_append_seq); ("part_id", h_part_id); ("find_max_part", h_find_max_part);
-   ("append_trace", h_append_trace)].
+   ("append_trace", h_append_trace); ("read_cat", h_read_cat)].
